@@ -26,10 +26,19 @@ def return_arity(ctx: Ctx, rule: str):
     pyargs = {m: sm.func("codegen/python.py", f"PythonCodeGenerator.{m}") for m in ("_rhs_arguments", "_scheme_arguments")}
 
     def func_field(helper: str, field: str):
-        g = util.nff(ctx, pyargs[helper])
-        fc = [c for c in find_calls(g.node, "Func")]
-        v = call_kw(fc[0], field) if fc else None
-        return util.canon_of(g).resolve(v) if v is not None else None
+        """the field of the helper's Func tuple as an ast expression (from its abstract value)"""
+        from sa import av as _avf
+
+        from .c04 import func_fields
+
+        fields, _v = func_fields(ctx, pyargs[helper])
+        x = fields.get(field) if fields else None
+        if x is None or _avf.has_unk(x):
+            return None
+        try:
+            return ast.parse(_avf.show(x), mode="eval").body
+        except SyntaxError:
+            return None
 
     models = common.scheme_models(ctx)
     for mname in ("rhs", "monitor_values", "missing_values", "scheme"):
